@@ -51,6 +51,11 @@ CHECKS = {
          "Generated search over (28 option types x bases 2..36 x choice sets x value text) delivered through --opt=value, default tags and the environment, plus a complete enumeration of integer type x base x limit+-{0,1} every run and (thorough) a 60 s coverage-guided fuzz campaign over (type, base, bytes). Accept/reject and the stored value are compared with an own digit scanner over math/big and with strconv.ParseFloat/time.ParseDuration at the declared width; rejections must be ErrMarshal/ErrInvalidChoice naming the option and listing every choice.",
          "trusts strconv.ParseFloat, time.ParseDuration, math/big; forms on which Go's conventions and the documentation differ ('+' or '-0' on unsigned) are don't-care: only 'if accepted then denoted value' is checked",
          "DESIGN.md §4 C11"),
+ "C13": ("exploration",
+         "property-based testing (rapid): reference name/section resolution plus differential comparison of INI reading against the equivalent command-line flags",
+         "Generated search over declarations with crossing names, INI texts using all four key naming forms and all section spellings, every option type, repeated keys, in normal and as-defaults mode. Each entry's target option and stored value are compared with the reference resolution (ini-name case-insensitively > field name > namespaced long name > short name; section by description or dotted command path; header-less entries reach the parser's own groups only), untouched options must keep their contents, and per option the same entries passed as --name=value to a fresh parser must give the same field value.",
+         "trusts the reference INI resolution (harness/props/iniref.go) written from the documentation of IniParser.Parse and the property statement; entries with no command-line spelling ('flag = false') are compared with the reference only; no-ini options are not targeted",
+         "DESIGN.md §4 C13"),
  "C14": ("exploration",
          "property-based testing (rapid): metamorphic noise-invariance of valid INI files and single-fault line-number oracle; native coverage-guided fuzzing of raw bytes for totality",
          "Generated search over valid INI files (entries resolved and accepted by the reference semantics) with noise inserted (blank lines, both comment styles, 70 kB comment lines, blanks around names/=/values/headers, CRLF): the option fields after the noisy file must equal those after the clean file; with exactly one faulty line at a random position the error must be an *IniError carrying that line's 1-based number (ErrUnknownGroup for a section), and under IgnoreUnknown unknown keys/sections are skipped while everything else is applied. Thorough adds a 90 s 16-core fuzz campaign over arbitrary bytes (no panic, error type *IniError or *flags.Error).",
